@@ -205,6 +205,8 @@ type PushSpec struct {
 	ContentRelated bool   `json:"content_related,omitempty"`
 	Arg            int64  `json:"arg,omitempty"`
 	Body           []byte `json:"body,omitempty"`
+	// Split > 0: the frame carrying this message reaches the client in two pieces, cut after Split bytes (modulo its length)
+	Split int `json:"split,omitempty"`
 }
 
 type HoldSpec struct {
